@@ -88,6 +88,7 @@ def names_upto(segs, depth):
     return out
 
 
+ABSDIR = "/tmp/c17abs"   # an absolute canary location without any dot segment
 DEEP = 45          # depth of the chain base/d/d/d/.. of existing directories (each holds a file `a`)
 
 
@@ -134,7 +135,7 @@ def gen_pure(chk):
     for b in BASES:
         for n in names:
             cases.append([0] + enc(b) + enc(n))
-    for n in long_names(rng, "/tmp/c17abs0", 20000 if chk.thorough else 2000):
+    for n in long_names(rng, ABSDIR, 20000 if chk.thorough else 2000):
         for b in ("/srv/t", "t", "", "/srv/t/"):
             cases.append([0] + enc(b) + enc(n))
     exhaustive_n = len(cases)
@@ -172,7 +173,7 @@ def body(tag):
 
 
 def make_tree():
-    top = os.path.join(CACHE, "c17-tree", str(os.getpid()))
+    top = os.path.join(CACHE, "c17-tree", "run")      # fixed paths (replays name them); runs are serialised by Lock("c17-tree")
     shutil.rmtree(top, ignore_errors=True)
     root = os.path.join(top, "root")
     base = os.path.join(root, "base")
@@ -185,7 +186,7 @@ def make_tree():
                os.path.join(top, "a"), os.path.join(top, "canary"), os.path.join(root, "base2", "a"), os.path.join(root, "basea"),
                os.path.join(root, L255), os.path.join(root, "dir", L255), os.path.join(root, "dir", "sub", "a"), os.path.join(root, "dir", "sub", "canary"),
                os.path.join(top, "dir", "a"), os.path.join(root, "a "), os.path.join(root, " a"), os.path.join(top, "root", "a"), os.path.join(top, L255)]
-    absdir = "/tmp/c17abs%d" % os.getpid()
+    absdir = ABSDIR
     outside.append(os.path.join(absdir, "a"))
     tags = {}
     for i, rel in enumerate(inside):
@@ -248,10 +249,10 @@ def cb_apply(cb, name, parent):
 def gen_names2(chk, outside, base):
     names = ["a", "dir/a", "sub/a", "canary", "../a", "../canary", "./a", "./../a", "../../a", "../../canary", "../dir/a", "dir/../a", "dir/../../a", "..", ".", "",
              "/a", "a/", "..\\a", "a\\b", ".a", "%2e%2e/a", "‥/a", "\0", "a\0", L255, "../" + L255, "sub/../../a", "../sub/a", "../base2/a", "../../base2/a",
-             "../basea", "x/../../../canary", "../../../../../../../../tmp/c17abs%d/a" % os.getpid()] + \
+             "../basea", "x/../../../canary", "../../../../../../../../tmp/c17abs/a"] + \
             [os.path.relpath(o, base) for o in outside] + [os.path.relpath(o, os.path.join(base, "dir")) for o in outside] + \
             [x for k in (1, 13, 14, 15, 16, 17, 18, 31, 40) for x in ("/" * k + "sub/../../canary", "/" * k + "d/a", "d/" * k + "../" * (k + 1) + "canary", "d/" * k + "a",
-                                                                  "/" * k + "tmp/c17abs%d/a" % os.getpid(), "d/" * k + "/tmp/c17abs%d/a" % os.getpid())] + names_upto(SEGS_E2E[:-1], 2)
+                                                                  "/" * k + "tmp/c17abs/a", "d/" * k + "/tmp/c17abs/a")] + names_upto(SEGS_E2E[:-1], 2)
     parents = ["main.html", "dir/main.html", "dir/sub/main.html", "../main.html", "/main.html", "x/y/z/main.html"]
     cases = []
     for j, n in enumerate(names):
@@ -324,16 +325,17 @@ def main():
         chk.finish()
     hooks = hooks and hooks2
     mj = os.path.join(EXTRACT, "C17", "mjmodel")
-    top, base, absdir, tags, outside = make_tree()
-    try:
-        run_all(chk, mj, hooks, proofs_ok, top, base, absdir, tags, outside)
-    finally:
-        shutil.rmtree(top, ignore_errors=True)
-        shutil.rmtree(absdir, ignore_errors=True)
+    with Lock("c17-tree"):
+        top, base, absdir, tags, outside = make_tree()
         try:
-            os.rmdir(os.path.join(CACHE, "c17-tree"))
-        except OSError:
-            pass
+            run_all(chk, mj, hooks, proofs_ok, top, base, absdir, tags, outside)
+        finally:
+            shutil.rmtree(top, ignore_errors=True)
+            shutil.rmtree(absdir, ignore_errors=True)
+            try:
+                os.rmdir(os.path.join(CACHE, "c17-tree"))
+            except OSError:
+                pass
     chk.finish()
 
 
@@ -357,7 +359,7 @@ def run_all(chk, mj, hooks, proofs_ok, top, base, absdir, tags, outside):
         for i, c in enumerate(pure):
             b, j = dec(c, 1); n, _ = dec(c, j)
             segs = n.split("/")
-            hist["pure:segments=%d" % min(len(segs), 6)] += 1
+            hist["pure:segments=%s" % (len(segs) if len(segs) <= 5 else "6-15" if len(segs) <= 15 else "16-40" if len(segs) <= 40 else ">40")] += 1
             hist["pure:" + ("accepted" if mod[i][0] == 1 else "rejected")] += 1
             if len(segs) >= 2 and (mod[i][0] == 1 or not (segs[0].startswith(".") or "\\" in segs[0])):
                 nontriv.add(("p", b, n))
